@@ -67,6 +67,10 @@ type modeInterp struct {
 	memo           map[string]*ssa.Instruction
 	depthLimit     int
 	evalDepth      int
+	// barrier: a path is abandoned at an instruction satisfying it (must-pass queries)
+	barrier func(ssa.Instruction, modeEnv) bool
+	// predField: atomic.Bool field name -> predicate name it backs (computed lazily from the predicate functions' bodies)
+	predField map[string]string
 }
 
 func predName(v ssa.Value, preds map[string]bool) string {
@@ -338,9 +342,14 @@ func (mi *modeInterp) explore(fn *ssa.Function, env0 modeEnv, depth int) ssa.Ins
 		st := work[len(work)-1]
 		work = work[:len(work)-1]
 		env := st.env
+		blocked := false
 		for _, ins := range st.b.Instrs {
 			if mi.target(ins, env) {
 				return ins
+			}
+			if mi.barrier != nil && mi.barrier(ins, env) {
+				blocked = true
+				break
 			}
 			switch x := ins.(type) {
 			case *ssa.Store:
@@ -349,6 +358,10 @@ func (mi *modeInterp) explore(fn *ssa.Function, env0 modeEnv, depth int) ssa.Ins
 					env["v:"+a.Name()] = mi.eval(x.Val, env)
 				}
 			case *ssa.Call:
+				// m.watchingOnly.Store(true): the function itself moves a mode predicate; later tests see the new value
+				if f, v, ok := mi.predStore(x); ok {
+					env["p:"+f] = v
+				}
 				if !mi.noDescend {
 					if r := mi.descend(x, env, depth); r != nil {
 						return r
@@ -362,7 +375,7 @@ func (mi *modeInterp) explore(fn *ssa.Function, env0 modeEnv, depth int) ssa.Ins
 				}
 			}
 		}
-		if len(st.b.Instrs) == 0 {
+		if len(st.b.Instrs) == 0 || blocked {
 			continue
 		}
 		switch t := st.b.Instrs[len(st.b.Instrs)-1].(type) {
@@ -490,4 +503,47 @@ func (mi *modeInterp) mayReach(g *ssa.Function) bool {
 	}
 	mi.canReachTarget[g] = res
 	return res
+}
+
+// predStore: call is (*atomic.Bool).Store(const) on the field that backs one of the mode predicates.
+func (mi *modeInterp) predStore(call *ssa.Call) (string, boolVal, bool) {
+	g := call.Call.StaticCallee()
+	if g == nil || g.Name() != "Store" || g.Pkg == nil || g.Pkg.Pkg.Path() != "sync/atomic" || len(call.Call.Args) != 2 {
+		return "", bUnknown, false
+	}
+	fa, ok := call.Call.Args[0].(*ssa.FieldAddr)
+	if !ok {
+		return "", bUnknown, false
+	}
+	b, ok := constBool(call.Call.Args[1])
+	if !ok {
+		return "", bUnknown, false
+	}
+	if mi.predField == nil {
+		mi.predField = map[string]string{}
+		for _, fn := range mi.p.RepoFuncs {
+			if !mi.preds[fn.Name()] || fn.Signature.Recv() == nil || len(fn.Blocks) != 1 {
+				continue
+			}
+			for _, ins := range fn.Blocks[0].Instrs {
+				if c2, ok := ins.(*ssa.Call); ok {
+					if h := c2.Call.StaticCallee(); h != nil && h.Name() == "Load" && len(c2.Call.Args) == 1 {
+						if fa2, ok := c2.Call.Args[0].(*ssa.FieldAddr); ok {
+							_, f := fieldAddrName(fa2)
+							mi.predField[f] = fn.Name()
+						}
+					}
+				}
+			}
+		}
+	}
+	_, f := fieldAddrName(fa)
+	pn, ok := mi.predField[f]
+	if !ok {
+		return "", bUnknown, false
+	}
+	if b {
+		return pn, bTrue, true
+	}
+	return pn, bFalse, true
 }
